@@ -88,6 +88,14 @@ impl Scenario for Dens {
         if sparse_huge {
             spec.m = rng.log_range(1500, 6000) as usize;
         }
+        if tier == Tier::Thorough && rng.chance(0.0007) {
+            // one huge slice (above a million items) against the item-wise twin
+            spec.m = rng.log_range(1024, 16_384) as usize;
+            let n = rng.range(1_000_000, 1_300_000);
+            let base = rng.u64() >> 2;
+            let items: Vec<u64> = (0..n).map(|k| if spec.elem == ElemT::U32 { (base + k) & 0xffff_ffff } else { base + k }).collect();
+            return DensPlan { spec, ops: vec![DOp::Slice(items)] };
+        }
         let m = spec.m;
         let pool = crate::sc_stream::gen_items(rng, (3 * m).clamp(4, 3000), spec.elem);
         let nseg = rng.urange(1, 3);
